@@ -67,6 +67,11 @@ CHECKS.update({
    text="TLC checks that a new leader's revisions exceed everything stored when the engine clock advances at least as fast as write attempts, and produces the counterexample for a transaction-counting clock. On the real code an old leader (real election, real seeding from the lock description) serves successful and many failed writes, stops after any request, and a restarted node becomes leader the same way; first revisions, a guarded update of an old key and a list are judged by the monitors per engine. Badger violates the property (known finding D10).",
    ref="6/C15", note="fail-over between different identities is not executed (losing the lease ends the process); the restart path runs the same seeding code. Trusted base as above."),
 })
+CHECKS.update({
+ "C16": dict(technique="TLA+ model of the transaction recognisers and of etcd reference semantics (Etcd.tla) model-checked by TLC over the whole bounded transaction space; the same (transaction, store) pairs sent to the real Txn handler and judged by TLC (TraceEtcd.tla); TLC-generated histories issued through the real etcd Txn/Range/Watch handlers on 4 engines and judged by TraceProps monitors",
+   text="TLC enumerates all 450k (transaction, store) pairs with <=1 compare, <=2 success and <=1 failure operations and checks that a recognised transaction is executed exactly as etcd semantics prescribe (success flag, store effect, failure-branch key-value) and that every other shape is rejected without effect. A structure-stratified sample (all of it in the thorough tier) is sent to the real handler over a seeded store and re-judged by TLC. Histories of the four Kubernetes shapes are issued through the real Txn, Range (point, range, limit, count-only) and Watch (fake gRPC stream, prev_kv on deletes) handlers on four engines and judged by the MVCC monitors. Two deviations are recorded as known findings (D17 unguarded delete of a missing key, D18 count under a limit).",
+   ref="6/C16"),
+})
 NA = {
  "C19": "data-race freedom is a property of memory accesses under the Go memory model; a TLA+ specification has no notion of an unsynchronised access and trace validation cannot observe one (see DESIGN.md section 6, C19)",
 }
